@@ -71,6 +71,13 @@ def progress_locals(body):
             if b in after:
                 dl.append(payload.get('line'))
         if dl:
+            # a local that is written back to the connection before every later suspension is a working copy, not progress held in the future
+            import eqfacts
+            try:
+                if eqfacts.mirrored_at_suspensions(body, 'ReadConnection', i) or eqfacts.mirrored_at_suspensions(body, 'WriteConnection', i):
+                    continue
+            except Exception:
+                pass
             out.append({'name': name, 'local': i, 'def_lines': sorted(set(x for x in dl if x)), 'ty': l.get('ty')})
     return out
 
